@@ -44,6 +44,18 @@ Theorem C06_total_per_bar : forall k v pct ops, Forall (governed k v pct) ops ->
   fills_of k (ms_fills (mrun ops)) <= Qmax 0 (zq (qround_even (qmul v pct))).
 Proof. exact total_fills_per_bar. Qed.
 
+(* ... and, as the property words it, never exceeds that fraction ROUNDED DOWN TO WHOLE LOTS - also after an odd-lot liquidation has made
+   the bar's turnover odd (D34: the code used to round only what was left, so 150 odd shares + 600 could reach 750 of an allowance of 700) *)
+Theorem C06_total_per_bar_whole_lots : forall k v pct lot ops, Forall (governed_lots k v pct lot) ops ->
+  fills_of k (ms_fills (mrun ops)) <= Qmax 0 (qmul (zq (Qfloor (qdiv (zq (qround_even (qmul v pct))) lot))) lot).
+Proof. exact total_fills_per_bar_lots. Qed.
+Example C06_odd_turnover_example :
+  let g := {| m_matching := CurrentBarClose; m_price_limit := false; m_inactive_limit := false; m_volume_limit := true;
+              m_volume_percent := 1 # 4; m_slip := PriceRatio; m_slip_rate := 0 |} in
+  let i := {| i_lot := 100; i_mult := 1; i_tick := 1 # 100; i_listed_today := false |} in
+  lot_cap g i 3000 = 700 /\ volume_cap g i 3000 150 = 500 /\ volume_cap g i 3000 0 = 700.
+Proof. repeat split; vm_compute; reflexivity. Qed.
+
 (* non-vacuity: three market orders of 500 / 400 / 300 shares against a bar of 4250 shares at 25 % (cap 1000 after lot rounding):
    500 + 400 + 100 are traded, the booked turnover is 1000, and an update clears it *)
 Example C06_total_example :
@@ -83,5 +95,6 @@ Print Assumptions C06_market_no_rest.
 Print Assumptions C06_limit_rests.
 Print Assumptions C06_cap_bound.
 Print Assumptions C06_total_per_bar.
+Print Assumptions C06_total_per_bar_whole_lots.
 Print Assumptions C06_code_cap_is_model.
 Print Assumptions C06_code_turnover_bookkeeping.
